@@ -472,7 +472,7 @@ fn case(sub: &str, id: u64, r: &mut Report) {
 fn pairwise_ne(ctx: &Ctx, r: &mut Report) {
     use rand_core::{RngCore, SeedableRng};
     let reduced = crate::util::REDUCED.load(std::sync::atomic::Ordering::Relaxed);
-    let m: usize = if reduced { 64 } else if (ctx.tier_thorough && ctx.scale >= 1.0) || ctx.scale >= 3.0 { 180_000 } else { 1 << 15 };
+    let m: usize = if reduced { 12 } else if (ctx.tier_thorough && ctx.scale >= 1.0) || ctx.scale >= 3.0 { 180_000 } else { 1 << 15 };
     let mk = |k: usize| -> [u8; 32] {
         let mut p = Prng::new(ctx.seed.wrapping_mul(0x9e37_79b9).wrapping_add(k as u64) ^ 0x7061_6972);
         let mut s: [u8; 32] = p.bytes(32).try_into().unwrap();
